@@ -62,6 +62,7 @@ def generate(rng, tier, enum_size=5, enum_len=3, sample5=1500, n_random=1000, na
         fl = flags_for(rules, root, False)
         for w in ([A, B, B, B], [B, B], [A, A, B], G.rand_input(rng, 4)):
             out.append((G.case_text(rules, root, w, flags=fl), {"stream": "enumerated-sample", "unproductive": unprod(rules, root)}))
+    out += shared_memo_cases(rng, 500 if tier == "quick" else 6000)
     for i in range(n_random):
         ops = G.MONO if i % 3 == 0 else G.FULL
         rules, root = G.rand_grammar(rng, ops)
@@ -78,6 +79,89 @@ def generate(rng, tier, enum_size=5, enum_len=3, sample5=1500, n_random=1000, na
             out.append((G.case_text(rules, root, G.rand_input(rng, maxlen), offset=rng.choice([1, 1, 2, 7]), flags=fl),
                         {"stream": "random-named" if named else ("random-mono" if ops is G.MONO else "random-full"),
                          "unproductive": unprod(rules, root)}))
+    return out
+
+
+
+# ---------------------------------------------------------------- targeted streams
+
+def shared_memo_cases(rng, n):
+    """an ambiguous memoized parser M (3..5 results at one position) consumed several times at the same position by
+    consumers that extend its result list differently (Any, Optional, memoized or not): the shape in which a cached
+    result list with spare capacity gets corrupted (defect D1 and its partial reverts)"""
+    out = []
+    C, D, E, F = 99, 100, 101, 102
+    for _ in range(n):
+        k = rng.choice([3, 3, 3, 4, 5, 6, 7])
+        readings = [('rune', A), G.seqof(('rune', A)), G.seqof(('rune', A), ('empty',)), G.seqof(('empty',), ('rune', A)),
+                    G.seqof(('empty',), ('rune', A), ('empty',)), ('opt', ('rune', A)), G.seqof(('opt', ('rune', B)), ('rune', A))]
+        rng.shuffle(readings)
+        if rng.random() < 0.3:
+            mbody = ('any', [G.seqof(('ref', 1), ('rune', A)), ('rune', A)])      # M -> M a | a
+        else:
+            mbody = ('any', readings[:k])
+        extra = [G.seqof(('rune', A), ('empty',), ('empty',)), G.seqof(('empty',), ('empty',), ('rune', A)), ('rune', B),
+                 G.seqof(('rune', A), ('rune', A))]
+        consumers = []
+        for i in range(rng.choice([2, 3, 3, 4])):
+            kind = rng.choice(['ref', 'opt', 'any', 'any', 'anymemo', 'optmemo'])
+            y = rng.choice(extra)
+            if kind == 'ref':
+                consumers.append(('ref', 1))
+            elif kind == 'opt':
+                consumers.append(('opt', ('ref', 1)))
+            elif kind == 'any':
+                consumers.append(('any', [('ref', 1), y]))
+            elif kind == 'anymemo':
+                consumers.append(('memo', 0, ('any', [('ref', 1), y])))
+            else:
+                consumers.append(('memo', 0, ('opt', ('ref', 1))))
+        tails = [C, D, E, F, C, D]
+        branches = []
+        for i in range(rng.choice([3, 4, 4, 5])):
+            u = rng.choice(consumers)
+            branches.append(G.seqof(u, ('rune', tails[i])))
+        rules = [('memo', 1, ('any', branches)), ('memo', 2, mbody)]
+        rules, root = G.uniquify_memo(rules, ('ref', 0))
+        fl = flags_for(rules, root, False)
+        for t in rng.sample([C, D, E, F], 2):
+            w = [A] * rng.choice([1, 1, 2, 3]) + [t]
+            out.append((G.case_text(rules, root, w, flags=fl), {"stream": "shared-memo", "unproductive": False}))
+    return out
+
+
+def swap_runes(e, frm, to):
+    t = e[0]
+    if t == 'rune':
+        return ('rune', to) if e[1] == frm else e
+    if t in ('any', 'choice'):
+        return (t, [swap_runes(x, frm, to) for x in e[1]])
+    if t == 'seq':
+        return e[:5] + ([swap_runes(x, frm, to) for x in e[5]],)
+    if t in ('memo', 'name', 'ltrim', 'rtrim'):
+        return (t, e[1], swap_runes(e[2], frm, to))
+    if t in ('opt', 'suppress', 'single'):
+        return (t, swap_runes(e[1], frm, to))
+    return e
+
+
+def error_cases(rng, n):
+    """failing Sentence parses for C06: named Choice/Any over Optional and sequences (a matching alternative that also
+    carries an error), and grammars/inputs with line feeds (the reported line:column at and after line breaks)"""
+    out = []
+    ops = ['choice', 'choice', 'any', 'opt', 'opt', 'seq', 'seq', 'seq', 'many', 'memo']
+    for i in range(n):
+        rules, root = G.rand_grammar(rng, ops, max_rules=2, depth=3)
+        if exponential_shape(rules, root):
+            continue
+        cnt = [0]
+        rules = [G.name_alternatives(r, cnt) for r in rules]
+        root = G.name_alternatives(root, cnt)
+        alphabet = (A, B)
+        fl = flags_for(rules, root, True)
+        for _ in range(3):
+            out.append((G.case_text(rules, root, G.rand_input(rng, 6, alphabet), offset=rng.choice([1, 1, 3]), flags=fl),
+                        {"stream": "error-named", "unproductive": unprod(rules, root)}))
     return out
 
 
